@@ -427,11 +427,12 @@ lcm_gcd_exact(To& to, const From1& x, const From2& y, Rounding_Dir dir) {
   To a_x;
   To a_y;
   Result r;
-  r = abs<From1_Policy, From1_Policy>(a_x, x, dir);
+  // The temporaries have the destination type: they obey its policy.
+  r = abs<To_Policy, From1_Policy>(a_x, x, dir);
   if (r != V_EQ) {
     return r;
   }
-  r = abs<From2_Policy, From2_Policy>(a_y, y, dir);
+  r = abs<To_Policy, From2_Policy>(a_y, y, dir);
   if (r != V_EQ) {
     return r;
   }
